@@ -6,10 +6,11 @@
     the world is dropped afterwards.  Proved safe: dropping a world, overwriting a
     component (Entry::add on a present component, writes through &mut views, resource
     writes), clear (finding F8b, repaired), remove (finding F8a, repaired).
-    PARTIAL: clone_from (findings F8c and F11, repaired), clone, serialization, equality, Debug, the shape
+    clone_from of an archetype (findings F8c and F11, repaired; Clone and Drop callbacks).
+    PARTIAL: clone, serialization, equality, Debug, the shape
     changes of Entry::add/remove and system bodies have no fault model here; they are
     judged by fault injection on the real code (every callback kind, every position). *)
-From Brood Require Import Base World Multi Phys BaseFacts PhysFacts.
+From Brood Require Import Base World Multi Phys BaseFacts PhysFacts Heap HeapFacts ColsFacts CloneFromM CloneFromFacts.
 
 (** A panic in any Drop while the world is being dropped: the rest of that column is
     still dropped, later columns are leaked, nothing is dropped twice. *)
@@ -90,3 +91,71 @@ Proof.
     destruct H as [H1 H2]. split; [exact H1|]. rewrite H2. discriminate.
 Qed.
 Print Assumptions C17_clear_F8b_before_the_repair.
+
+(** A panic in any Clone or Drop callback during [Archetype::clone_from] (the k-th callback of either
+    kind): the archetype holds no rows while its columns are replaced — read off the source,
+    [fact_clone_from_hides_rows_first] — so nothing is dropped twice, then or when the world is dropped,
+    whatever the lengths of destination and source; and a call that returns leaves a clean archetype
+    holding exactly the source's values (the part of C10 that is about one archetype).
+    This is finding F8c REPAIRED. *)
+Theorem C17_clone_from : forall a src lb f f', Clean a ->
+  length src = count_true (pa_shape a) -> (forall s, In s src -> length s = lb) ->
+  let '(a', evs, unwound) := p_clone_from a src lb f in
+  double_drops evs = [] /\ double_drops (fst (p_drop_arch a' f')) = [] /\
+  (unwound = true -> pa_len a' = 0) /\
+  (unwound = false -> Clean a' /\ pa_len a' = lb /\
+                      Forall2 (fun col' s => firstn lb col' = map Owned s) (pa_cols a') src).
+Proof. exact clone_from_safe_src. Qed.
+Check (C17_clone_from : forall a src lb f f', Clean a ->
+  length src = count_true (pa_shape a) -> (forall s, In s src -> length s = lb) ->
+  let '(a', evs, unwound) := p_clone_from a src lb f in
+  double_drops evs = [] /\ double_drops (fst (p_drop_arch a' f')) = [] /\
+  (unwound = true -> pa_len a' = 0) /\
+  (unwound = false -> Clean a' /\ pa_len a' = lb /\
+                      Forall2 (fun col' s => firstn lb col' = map Owned s) (pa_cols a') src)).
+Print Assumptions C17_clone_from.
+
+(** the hypotheses are met and both outcomes occur: a longer destination, a Clone panic in the second column *)
+Example C17_clone_from_nonvacuous :
+  (let '(a', _, unwound) := p_clone_from d_arch [[91]%N; [92]%N] 1 (Some (CbClone, 1)) in unwound = true /\ pa_len a' = 0) /\
+  (let '(a', _, unwound) := p_clone_from d_arch [[91]%N; [92]%N] 1 None in unwound = false /\ pa_len a' = 1).
+Proof. vm_compute. auto. Qed.
+
+(** ... as it was before the repair (the old length kept over columns already truncated): *)
+Theorem C17_clone_from_F8c_before_the_repair :
+  exists a src lb k, Clean a /\ length src = count_true (pa_shape a) /\ (forall s, In s src -> length s = lb) /\
+    let '(a', _, unwound) := p_clone_from_gen false a src lb (Some (CbClone, k)) in
+    unwound = true /\ double_drops (fst (p_drop_arch a' None)) <> [].
+Proof.
+  exists d_arch, [[91]%N; [92]%N], 1, 1. split.
+  - split; [reflexivity|]. intros col [<-|[<-|[]]] r Hr; cbn in Hr;
+      destruct r as [|[|[|r]]]; try lia; cbn; eauto.
+  - split; [reflexivity|]. split; [intros s [<-|[<-|[]]]; reflexivity|].
+    pose proof clone_from_old_length_double_drop as H.
+    destruct (p_clone_from_gen false d_arch [[91]%N; [92]%N] 1 (Some (CbClone, 1))) as [[a' e] u].
+    destruct H as [H1 H2]. split; [exact H1|]. rewrite H2. discriminate.
+Qed.
+Print Assumptions C17_clone_from_F8c_before_the_repair.
+
+(** The other half of F8c, at the heap level: [Vec::clone_from] had to grow (move) the column it was cloning
+    into and a Clone panicked afterwards.  With pointer and capacity written back while unwinding — read off
+    the source, [fact_clone_from_writes_back_on_unwind] — the column store keeps its invariant (no block
+    released twice, every block owned), so every later history is safe ([crun_inv]); without it the column
+    keeps the raw parts of the released block. *)
+Theorem C17_clone_from_growth_unwound : forall s i add want, CInv s ->
+  exists s', cgrow_unwound_src s i add want = Some s' /\ CInv s'.
+Proof. exact cgrow_unwound_src_inv. Qed.
+Check (C17_clone_from_growth_unwound : forall s i add want, CInv s ->
+  exists s', cgrow_unwound_src s i add want = Some s' /\ CInv s').
+Print Assumptions C17_clone_from_growth_unwound.
+
+Theorem C17_clone_from_growth_F8c_before_the_repair :
+  match crun true true true cinit [CNew false 0; CPush 0 1%N 1] with
+  | Some s => match cgrow_unwound false s 0 5 0 with
+              | Some s1 => cstep true true true s1 (CFree 0) = None
+              | None => False
+              end
+  | None => False
+  end.
+Proof. exact wb_unwind_needed. Qed.
+Print Assumptions C17_clone_from_growth_F8c_before_the_repair.
